@@ -73,3 +73,19 @@ Theorem C13_triple_quoted_style :
                 (cSQ :: cSQ :: cSQ :: escape cSQ t ++ cSQ :: cSQ :: cSQ :: rest) = Some (t, rest).
 Proof. exact quoted_scan_triple. Qed.
 Print Assumptions C13_triple_quoted_style.
+
+(* ---- the DBML string writers are the ones in the source: regenerated from the source text of dbml utils.quote_string and
+   note_option_to_dbml on every run (coq/gen/GenFns.v); prepare_text_for_dbml is regular-expression based and stays tied by the
+   differential text stream ---- *)
+From PyDBML Require Import GenFns GenFnTie.
+Theorem C13_string_writers_regenerated_from_source :
+  (forall t, gen_quote_string t = quote_string t) /\ (forall t, gen_note_option_to_dbml t = note_option_to_dbml t).
+Proof. exact (conj gen_quote_string_is_model gen_note_option_to_dbml_is_model). Qed.
+Print Assumptions C13_string_writers_regenerated_from_source.
+
+(* expression text is passed through verbatim: the two Expression renderers, regenerated from their source text *)
+From PyDBML Require Import Heap RenderSQL RenderDBML.
+Theorem C13_expression_renderers_regenerated_from_source :
+  (forall x, gen_render_expression_sql x = 40%N :: x_text x ++ [41%N]) /\ (forall x, gen_render_expression_dbml x = 96%N :: x_text x ++ [96%N]).
+Proof. split; intros x; reflexivity. Qed.
+Print Assumptions C13_expression_renderers_regenerated_from_source.
